@@ -30,6 +30,22 @@ CHECK_TEXT["C11"] = {
     "technique": "contract-based deductive verification: Verus (Z3) on mechanically extracted real functions, inductive lemmas for the scan window",
 }
 
+CHECK_TEXT["C10"] = {
+    "text": ("Proof of the sequential kernel that enforces the order, on the real function bodies (extracted every run): "
+             "Ord for WriteTask is a min-heap by epoch; process_pending_commits keeps the committer's representation invariant (the open physical "
+             "batch holds exactly the logical batches upto..expected in epoch order), pops exactly the epochs [expected, expected') each once in ascending "
+             "order, makes maximal progress (whatever stays queued is strictly younger), and every group it closes is committed as one batch; "
+             "CurrentBatch::flush commits the open group exactly once also while shutting down; commit_worker (all arrival orders, unbounded) ends with an "
+             "empty hold-back queue (its real assert! is a discharged obligation), a final flush, and all epochs 0..total committed group by group in "
+             "creation order; submit_write_batch hands every batch to the pipeline; serialize_worker only forwards well-formed tasks. "
+             "Tests run a handful of schedules; this covers every arrival order and every grouping decision of the store."),
+    "design_ref": "DESIGN.md section 5 (C10)",
+    "note": ("Threads are not modelled: the history preconditions of commit_worker (each epoch delivered at most once; all delivered by channel close) are "
+             "explicit assumptions; shutdown/join order, atomics and the producers are trusted. Storage traits, crossbeam, BinaryHeap are interface/std models "
+             "listed in evidence.trusted_base."),
+    "technique": "contract-based deductive verification: Verus (Z3), inductive loop invariants over an abstract heap view, ghost history variables",
+}
+
 NOT_APPLICABLE = {
     "C01": "whole-history property of an async, concurrent engine; no sequential function's contract implies it and neither Verus nor Kani ingests async/tokio/scc code (DESIGN 1, 5)",
     "C02": "quantifies over schedules / single-flight / termination: concurrency and liveness are outside both verifiers (Kani has no threads; Verus would need the code rewritten onto its permission types)",
@@ -45,7 +61,6 @@ NOT_APPLICABLE = {
 # claimed in DESIGN.md but the check is not built yet (kept out of `checks` until it runs green)
 PENDING = {
     "C09": "check under construction (DESIGN 5: staging-replay kernel); not claimed until it runs",
-    "C10": "check under construction (DESIGN 5: reorder buffer); not claimed until it runs",
     "C13": "check under construction (DESIGN 5: hash framing); not claimed until it runs",
     "C14": "check under construction (DESIGN 5: id plumbing); not claimed until it runs",
     "C16": "check under construction (DESIGN 5: admission policy); not claimed until it runs",
